@@ -107,14 +107,15 @@ Definition acc_read (a : gacc) (d : dyn) : option nat :=
   | None => None
   end.
 
-(* x_data_mut().map(|r| *r = v): returns whether a reference was handed out *)
+(* x_data_mut().map(|r| *r += v): read-modify-write through the reference; returns whether a
+   reference was handed out *)
 Definition acc_write (a : gacc) (d : dyn) (v : nat) : dyn * bool :=
   match d_inner d with
   | Some tm =>
       if mem (tm_state tm) (gc_variants a)
       then match slot_get (gc_field a) (tm_slots tm) with
-           | Some _ => (Build_dyn (Some (Build_tmachine (tm_state tm) (tm_ctx tm)
-                                                        (slot_set (gc_field a) (Some v) (tm_slots tm)))), true)
+           | Some old => (Build_dyn (Some (Build_tmachine (tm_state tm) (tm_ctx tm)
+                                                          (slot_set (gc_field a) (Some (old + v)) (tm_slots tm)))), true)
            | None => (d, false)
            end
       else (d, false)
